@@ -13,7 +13,7 @@
        exactly the slice of d's sorted remote-column list that d addressed to q;
      - MPI_Allreduce: every rank obtains the same reduction of all local values.
    Progress, deadlock freedom and arrival order are not modelled. *)
-From Amgcl Require Import Scalar Vec Crs Kernels MatOps.
+From Amgcl Require Import Scalar Vec Crs Kernels MatOps Cheby.
 Local Open Scope S_scope.
 
 (* ------------------------------------------------------------------ *)
@@ -228,30 +228,65 @@ Definition dist_product (DA DB : dmat) : dmat :=
 Definition dist_remote_rows (patsA : list cpat) (B : dmat) (r : nat) : list row :=
   map (fun c => nth c (concat (strips B)) []) (cp_rc (nth r patsA dflt_cpat)).
 
-(* ---- Gershgorin estimate, power_iters = 0 ----
-   serial (backend/builtin.hpp:790-816), one thread: state (emax, dia); dia is the last
-   diagonal entry seen (carried over to rows without one) *)
-Definition abs_sum (r : row) (acc : S) : S := fold_left (fun a e => a + sabs (snd e)) r acc.
-Definition last_diag (r : row) (i : nat) (dia : S) : S :=
-  fold_left (fun d e => if Nat.eqb (fst e) i then snd e else d) r dia.
-Definition gersh_step (scale : bool) (st : S * S) (ir : nat * (row * row)) : S * S :=
+(* ---- Gershgorin estimate, power_iters <= 0 (distributed_matrix.hpp:1159-1190, after the /repo
+   fixes ed6ca09 = Allreduce(MAX) of the rank maxima, and 18c5201 = `dia` is a local of the row loop
+   body, reset to the identity for EVERY row, as in the serial kernel since 519d545) ----
+   one row, i = LOCAL row number, rl / rr = the row of A_loc (local column numbers) / of A_rem:
+     s = sum |loc| (left to right, from 0), then + sum |rem|;
+     dia = LAST entry of the local row with local column == i, identity when there is none
+           (the test `scale && c == i` is only made for scale = true);
+     s *= |inverse(dia)| when scale *)
+Definition dgersh_row (scale : bool) (i : nat) (rl rr : row) : S :=
+  let '(s, dia) := fold_left (fun (sd : S * S) e =>
+        (fst sd + sabs (snd e), if scale && Nat.eqb (fst e) i then snd e else snd sd)) rl (s0, s1) in
+  let s' := fold_left (fun a e => a + sabs (snd e)) rr s in
+  if scale then s' * sabs (sinv dia) else s'.
+(* one OpenMP thread: emax starts at 0, running std::max over its rows *)
+Definition dgersh_chunk (scale : bool) (irs : list (nat * (row * row))) : S :=
+  fold_left (fun em ir => smax em (dgersh_row scale (fst ir) (fst (snd ir)) (snd (snd ir)))) irs s0.
+(* one rank: `radius` starts at 0; every thread (contiguous chunks of the local rows, [lens] = the chunk
+   lengths, a thread without rows contributes its initial emax = 0) does radius = max(radius, emax) in
+   the critical section -- modelled in thread order; that every order gives the same value is
+   C09_max_reduction_order_independent *)
+Definition rank_gershgorin_thr (scale : bool) (lens : list nat) (M : rank_mat) : S :=
+  fold_left (fun rad ch => smax rad (dgersh_chunk scale ch))
+            (chunks lens (indexed (combine (rows (rm_loc M)) (rows (rm_rem M))))) s0.
+Definition rank_gershgorin (scale : bool) (M : rank_mat) : S :=
+  rank_gershgorin_thr scale [nrows (rm_loc M)] M.
+(* MPI_Allreduce(MPI_MAX): the same value on every rank (reduction in rank order) *)
+Definition allreduce_max (locals : list S) : list S :=
+  match locals with
+  | [] => []
+  | a :: t => map (fun _ => fold_left smax t a) locals
+  end.
+(* line 1307: return radius < 0 ? 2 : radius *)
+Definition gersh_final (radius : S) : S := if sltb radius s0 then s1 + s1 else radius.
+Definition dist_gershgorin_thr (scale : bool) (lenss : list (list nat)) (D : dmat) : list S :=
+  map gersh_final
+      (allreduce_max (map (fun r => rank_gershgorin_thr scale (nth r lenss []) (nth r (dm_ranks D) dflt_rank))
+                          (seq 0 (length (dm_cparts D))))).
+(* OMP_NUM_THREADS = 1 *)
+Definition dist_gershgorin (scale : bool) (D : dmat) : list S :=
+  map gersh_final
+      (allreduce_max (map (fun r => rank_gershgorin scale (nth r (dm_ranks D) dflt_rank))
+                          (seq 0 (length (dm_cparts D))))).
+(* what C11 asks for: the serial value (Cheby.gershgorin = backend/builtin.hpp:790-817 on one thread)
+   of the assembled matrix on every rank *)
+Definition dist_gershgorin_spec (scale : bool) (A : crs) (nranks : nat) : list S :=
+  repeat (Cheby.gershgorin scale A) nranks.
+
+(* what the code computed BEFORE ed6ca09 / 18c5201 (kept for the regression example in
+   Properties_C11.v): rank-local maximum, no reduction; dia carried from row to row *)
+Definition old_gersh_step (scale : bool) (st : S * S) (ir : nat * (row * row)) : S * S :=
   let '(emax, dia) := st in
   let '(i, (rl, rr)) := ir in
-  let s := abs_sum rr (abs_sum rl s0) in
-  let dia' := if scale then last_diag rl i dia else dia in
+  let s := fold_left (fun a e => a + sabs (snd e)) rr (fold_left (fun a e => a + sabs (snd e)) rl s0) in
+  let dia' := if scale then fold_left (fun d e => if Nat.eqb (fst e) i then snd e else d) rl dia else dia in
   let s' := if scale then s * sabs (sinv dia') else s in
   (smax emax s', dia').
-Definition gershgorin (scale : bool) (A : crs) : S :=
-  fst (fold_left (gersh_step scale) (indexed (map (fun r => (r, [])) (rows A))) (s0, s1)).
-(* distributed (distributed_matrix.hpp:1159-1188): the maximum over the LOCAL rows only --
-   the code performs no reduction over the ranks *)
-Definition rank_gershgorin (scale : bool) (M : rank_mat) : S :=
-  fst (fold_left (gersh_step scale) (indexed (combine (rows (rm_loc M)) (rows (rm_rem M)))) (s0, s1)).
-Definition dist_gershgorin (scale : bool) (D : dmat) : list S :=
-  map (rank_gershgorin scale) (dm_ranks D).
-(* what C11 asks for: the serial value of the assembled matrix on every rank *)
-Definition dist_gershgorin_spec (scale : bool) (A : crs) (nranks : nat) : list S :=
-  repeat (gershgorin scale A) nranks.
+Definition old_dist_gershgorin (scale : bool) (D : dmat) : list S :=
+  map (fun M => fst (fold_left (old_gersh_step scale) (indexed (combine (rows (rm_loc M)) (rows (rm_rem M)))) (s0, s1)))
+      (dm_ranks D).
 
 End Dist.
 Arguments rank_mat : clear implicits.
